@@ -11,11 +11,11 @@ IdleW    == W(<<0, 0, 0, 0>>, 0)
 Words == { IdleW,                                         \* valid logical idle
            [IdleW EXCEPT !.v = FALSE],                    \* not valid, shows zeroes
            W(<<0, 0, 0, 0>>, 8) }                         \* valid, but a K symbol (value 0): not logical idle
-Init == h = HsInit /\ in = [en |-> FALSE, iw |-> NoWord, cpl |-> FALSE] /\ hist = <<>>
+Init == h = HsInit /\ in = [en |-> FALSE, iw |-> NoWord, cpl |-> FALSE, rst |-> FALSE] /\ hist = <<>>
 
 Cycle(en, w) ==
     \E cpl \in {TRUE, FALSE} :
-       LET r == [en |-> en, iw |-> w, cpl |-> cpl] IN
+       LET r == [en |-> en, iw |-> w, cpl |-> cpl, rst |-> FALSE] IN
        /\ HsFailing(h, r) = "ok"
        /\ h' = HsNext(h, r)
        /\ in' = r
